@@ -94,6 +94,7 @@ typedef struct {
     rw_info_t info;
     int applied, noop, nrw[5];      /* nrw: number of rewrites available per target (counted while running) */
     /* wire observations */
+    unsigned char rewritten[1700]; int rewrittenlen;
     unsigned char raw[4][1600]; int rawlen[4];   /* 0,1: ClientHello occurrences; 2,3: ServerHello/HRR occurrences (as sent) */
     hello_t ch[2], sh[2]; int nch, nsh, nhvr;
     int is13, ccs[2];
@@ -337,6 +338,7 @@ static int on_message(run_t *R, int d, unsigned char **pp, int *plen, int rec_of
             }
             free(p);
             *pp = np; *plen = len + delta;
+            if (mh + nl <= (int) sizeof(R->rewritten)) { memcpy(R->rewritten, np + ms, (size_t) (mh + nl)); R->rewrittenlen = mh + nl; }
             R->applied++;
             R->after[0] = R->after[1] = 0;
             R->alert[0] = R->alert[1] = 0;
@@ -469,7 +471,7 @@ enum { P_VER = 0, P_VERC, P_VERD, P_VXS, P_SUITE, P_SUITE12, P_GRP13, P_GRP12, P
 static const char *pname[] = { "ver", "verc", "verd", "vxs", "suite", "suite12", "grp13", "grp12", "sig13", "sig12", "sig13ca", "ems", "fb", "rw" };
 static long psize(int p)
 {
-    static const long n[] = { NVL * NVL, 2 * NVL * NVL, 4, 2401, 225, 225, 450, 49, 225, 225, 225, 36, 25, 12 };
+    static const long n[] = { NVL * NVL, 2 * NVL * NVL, 4, NVL * NVL * 49, 225, 225, 450, 49, 225, 225, 225, 36, 25, 18 };
     return n[p];
 }
 
@@ -528,7 +530,7 @@ static int build_cfg(int prod, long idx, ncfg_t *c)
         break;
     case P_VXS:
     {
-        int cv = (int) (idx % 7), sv = (int) (idx / 7 % 7), cs = (int) (idx / 49 % 7) + 1, ss = (int) (idx / 343) + 1;
+        int cv = (int) (idx % NVL), sv = (int) (idx / NVL % NVL), cs = (int) (idx / (NVL * NVL) % 7) + 1, ss = (int) (idx / (NVL * NVL * 7)) + 1;
         c->keys = K_PSK;
         set_vl(c->cver, &c->ncver, cv);
         set_vl(c->sver, &c->nsver, sv);
@@ -644,6 +646,12 @@ static void rw_base(int b, ncfg_t *c)
     case 8: set_vl(c->cver, &c->ncver, 3); set_vl(c->sver, &c->nsver, 3); c->cgrp[0] = 0x0017; c->cgrp[1] = 0x0018; c->ncgrp = 2; c->nshares = 1; c->sgrp[0] = 0x0018; c->nsgrp = 1; snprintf(c->label, sizeof(c->label), "tls13-rsa-hrr(c=s={1.3,1.2})"); break;
     case 9: c->keys = K_EC; c->tickets = 1; set_vl(c->cver, &c->ncver, 1); set_vl(c->sver, &c->nsver, 1); c->csuite[0] = S_EEC; c->csuite[1] = S_EECG; c->ncsuite = 2; snprintf(c->label, sizeof(c->label), "tls12-ecdhe-ecdsa-ticket(c=s={1.2})"); break;
     case 10: c->keys = K_EC; set_vl(c->cver, &c->ncver, 3); set_vl(c->sver, &c->nsver, 3); c->csuite[0] = S_13A; c->csuite[1] = S_EECG; c->ncsuite = 2; snprintf(c->label, sizeof(c->label), "tls13-ecdsa(c=s={1.3,1.2})"); break;
+    case 12: set_vl(c->cver, &c->ncver, 3); set_vl(c->sver, &c->nsver, 3); c->cgrp[0] = 0x001d; c->cgrp[1] = 0x0017; c->ncgrp = 2; c->nshares = 2; snprintf(c->label, sizeof(c->label), "tls13-rsa-2shares(c=s={1.3,1.2})"); break;
+    case 13: c->dtls = 1; c->keys = K_EC; set_dl(c->cver, &c->ncver, 1); set_dl(c->sver, &c->nsver, 1); c->csuite[0] = S_EECG; c->csuite[1] = S_EEC; c->ncsuite = 2; snprintf(c->label, sizeof(c->label), "dtls12-ecdhe-ecdsa(c=s={d1.2,d1.0})"); break;
+    case 14: c->tickets = 1; c->cems = -1; set_vl(c->cver, &c->ncver, 5); set_vl(c->sver, &c->nsver, 5); c->csuite[0] = S_RSAG; c->csuite[1] = S_RSA; c->ncsuite = 2; snprintf(c->label, sizeof(c->label), "tls12-rsa-noems-ticket(c=s={1.2,1.1})"); break;
+    case 15: c->keys = K_PSK; set_vl(c->cver, &c->ncver, 3); set_vl(c->sver, &c->nsver, 1); c->csuite[0] = S_13A; c->csuite[1] = S_PSK2; c->csuite[2] = S_PSK; c->ncsuite = 3; snprintf(c->label, sizeof(c->label), "tls12-psk(c={1.3,1.2},s={1.2})"); break;
+    case 16: set_vl(c->cver, &c->ncver, 2); set_vl(c->sver, &c->nsver, 2); c->csuite[0] = S_ERSAC; c->csuite[1] = S_RSA; c->ncsuite = 2; snprintf(c->label, sizeof(c->label), "tls11-ecdhe-rsa(c=s={1.1})"); break;
+    case 17: c->keys = K_EC; set_vl(c->cver, &c->ncver, 0); set_vl(c->sver, &c->nsver, 6); c->csuite[0] = 0x1303; c->csuite[1] = S_13A; c->ncsuite = 2; snprintf(c->label, sizeof(c->label), "tls13-ecdsa-chacha(c={1.3},s={1.3,1.2,1.1})"); break;
     default: set_vl(c->cver, &c->ncver, 1); set_vl(c->sver, &c->nsver, 1); c->cems = 1; c->sems = 1; c->csuite[0] = S_RSAG; c->csuite[1] = S_RSA; c->ncsuite = 2; snprintf(c->label, sizeof(c->label), "tls12-rsa-ems-required(c=s={1.2})"); break;
     }
 }
@@ -1039,6 +1047,7 @@ static void run_case(void *ctx, mx_result_t *r)
         fprintf(stderr, "config: %s %s\n", g_cfg.label, ct);
         if (cs->target >= 0) fprintf(stderr, "rewrite: %s #%d = %s (class %s, expect %s alert %d) applied %d noop %d\n", tname[cs->target], cs->k, R->info.name, R->info.klass, R->info.expect ? "abort-at-hello" : "fail", R->info.alert, R->applied, R->noop);
         for (i = 0; i < 4; i++) if (R->rawlen[i]) hexdump(i < 2 ? (i ? "ClientHello#1 (as sent)" : "ClientHello#0 (as sent)") : (i == 2 ? "ServerHello#0 (as sent)" : "ServerHello#1 (as sent)"), R->raw[i], R->rawlen[i]);
+        if (R->rewrittenlen) hexdump("rewritten hello (as delivered)", R->rewritten, R->rewrittenlen);
         fprintf(stderr, "session version masks: client %x server %x; HelloVerifyRequests %d\n", R->supp[0], R->supp[1], R->nhvr);
         for (i = 0; i < 2; i++)
         {
@@ -1138,7 +1147,7 @@ int main(int argc, char **argv)
     cfg.assumptions[3] = "negotiable-but-refused is a violation only for default-order version lists (incl. library default) with PSK suites usable at every version; elsewhere it is an outcome class";
     replay = mx_parse_args(argc, argv, &cfg);
     thorough = !strcmp(cfg.tier, "thorough");
-    cfg.bound = thorough ? "all 256 ordered TLS version-list pairs (15 lists + library default per side), 4 DTLS flag pairs, version x suite cross 2401, suite subsets 2x225, the same 256 pairs with RSA and with ECDSA certificate suites, groups 450+49, sigalgs 3x225, EMS 36, fallback 25; every hello rewrite on 12 base pairs"
+    cfg.bound = thorough ? "all 256 ordered TLS version-list pairs (15 lists + library default per side), 4 DTLS flag pairs, version x suite cross over all ordered lists 12544, suite subsets 2x225, the same 256 pairs with RSA and with ECDSA certificate suites, groups 450+49, sigalgs 3x225, EMS 36, fallback 25; every hello rewrite on 18 base pairs"
                          : "all 256 ordered TLS version-list pairs, 4 DTLS flag pairs, version x suite cross slice 343, suite subsets 225, 49 default-order pairs with RSA certificate suites, groups 75+49, sigalgs 75+75, EMS 36, fallback 25; every hello rewrite on 6 base pairs";
 
     if (replay)
@@ -1165,11 +1174,11 @@ int main(int argc, char **argv)
     for (i = 0; i < psize(P_VERC); i++) if (thorough || (i < NVL * NVL && i / NVL < 7 && i % NVL < 7)) add_case(P_VERC, i, -1, -1);
     for (i = 0; i < psize(P_EMS); i++) add_case(P_EMS, i, -1, -1);
     for (i = 0; i < psize(P_FB); i++) add_case(P_FB, i, -1, -1);
-    for (i = 0; i < psize(P_VXS); i++) if (thorough || i / 343 == 6) add_case(P_VXS, i, -1, -1);
+    for (i = 0; i < psize(P_VXS); i++) if (thorough || (i % NVL < 7 && i / NVL % NVL < 7 && i / (NVL * NVL * 7) == 6)) add_case(P_VXS, i, -1, -1);
     for (i = 0; i < psize(P_SUITE); i++) add_case(P_SUITE, i, -1, -1);
     for (i = 0; i < psize(P_GRP12); i++) add_case(P_GRP12, i, -1, -1);
 #define SLICE(i) (thorough || (i) / 15 == 14 || (i) / 15 == 0 || (i) / 15 == 1 || (i) / 15 == 3 || (i) / 15 == 7)
-    for (i = 0; i < psize(P_GRP13); i++) if (thorough || (i < 225 && SLICE(i))) add_case(P_GRP13, i, -1, -1);
+    for (i = 0; i < psize(P_GRP13); i++) { ncfg_t t; if ((thorough || (i < 225 && SLICE(i))) && build_cfg(P_GRP13, i, &t) == 0) add_case(P_GRP13, i, -1, -1); }
     for (i = 0; i < psize(P_SIG13); i++) if (SLICE(i)) add_case(P_SIG13, i, -1, -1);
     for (i = 0; i < psize(P_SIG12); i++) if (SLICE(i)) add_case(P_SIG12, i, -1, -1);
     if (thorough)
